@@ -31,15 +31,18 @@ theorem canonChan_overClient {s : St} {c r : Nat} (h : CanonChan s c r) : OverCl
     canonical channel carries nothing, in any state: the hub's transfer is refused, every incoming
     packet gets an error acknowledgement (`noChannel`: no canonical channel is recorded — today an
     internal error of `GetRollappByPortChan`, NOT "not a rollapp"; `notCanonical`: another channel is
-    recorded), and the state is unchanged. -/
+    recorded; or, while a hard fork has the canonical client frozen, ibc core refuses the packet message
+    itself), and the state is unchanged. -/
 theorem second_channel_never_flows {s : St} {c c' r : Nat} {ra : Ra}
     (hc : s.chans.find? (·.1 == c) = some (c', ChanKind.second r)) (hg : getRa s r = some ra) :
     step s (.send c) = (s, .err) ∧
-    ∀ ph p, step s (.recv c ph p) = (s, .rerr (if ra.chan.isNone then .noChannel else .notCanonical)) := by
+    ∀ ph p, step s (.recv c ph p) =
+      (s, if ra.frozen then .err else .rerr (if ra.chan.isNone then .noChannel else .notCanonical)) := by
   refine ⟨by simp [step, stepSend, hc], ?_⟩
   intro ph p
   simp only [step, stepRecv, hc, hg]
-  split <;> rfl
+  repeat' split
+  all_goals simp_all
 
 /-- **closed_all_channels** — while the handshake of `r` has not completed: a transfer from the hub
     over ANY channel of `r`'s canonical client is refused without any change, and a packet arriving on
@@ -61,14 +64,19 @@ theorem closed_all_channels {s : St} {c r : Nat} {ra : Ra} (hs : Reachable s) (h
     · exact Or.inr h
   · subst hk
     obtain ⟨h1, h2⟩ := second_channel_never_flows hf hg
-    exact ⟨h1, fun ph p => Or.inr ⟨_, h2 ph p⟩⟩
+    -- a closed bridge has never been forked: its canonical client is not frozen
+    have hnf : ra.frozen = false := by
+      cases hfz : ra.frozen
+      · rfl
+      · exact absurd ((closed_iff hs hg).1 h0) (((reachable_inv hs).get hg).frz hfz)
+    exact ⟨h1, fun ph p => Or.inr ⟨_, by rw [h2 ph p, hnf]; rfl⟩⟩
 
 /-- … in particular with no canonical channel recorded at all (every channel over the client opened
     behind the ante hook's back): nothing is accepted, whatever the packet -/
 theorem no_canonical_channel_nothing_accepted {s : St} {c c' r : Nat} {ra : Ra}
     (hc : s.chans.find? (·.1 == c) = some (c', ChanKind.second r)) (hg : getRa s r = some ra)
-    (hn : ra.chan = none) (ph : Nat) (p : Pkt) : step s (.recv c ph p) = (s, .rerr .noChannel) := by
-  rw [(second_channel_never_flows hc hg).2 ph p, hn]; rfl
+    (hn : ra.chan = none) (hf : ra.frozen = false) (ph : Nat) (p : Pkt) : step s (.recv c ph p) = (s, .rerr .noChannel) := by
+  rw [(second_channel_never_flows hc hg).2 ph p, hn, hf]; rfl
 
 -- ------------------------------------------------------------------------------------------------ frame
 
@@ -103,9 +111,9 @@ theorem canonical_channel_recorded_once (s : St) (op : Op) (r : Nat) (ra : Ra) (
 /-- a top-level `MsgChannelOpenAck` for a second channel is refused when a canonical channel is recorded
     (the channel identifier is spent, nothing else changes) -/
 theorem chopen_ack_refused_when_recorded {s : St} {r : Nat} {ra : Ra} (hg : getRa s r = some ra)
-    (hl : ra.linked = true) (hc : ra.chan.isSome = true) :
+    (hl : ra.linked = true) (hf : ra.frozen = false) (hc : ra.chan.isSome = true) :
     step s (.chopen r 0) = ({ s with nextChan := s.nextChan + 1 }, .err) := by
-  simp [step, stepChopen, hg, hl, hc]
+  simp [step, stepChopen, hg, hl, hf, hc]
 
 -- ------------------------------------------------------------------------------------------------ monotonicity
 
@@ -116,29 +124,36 @@ theorem opened_stays_open {s : St} {r : Nat} {ra : Ra} (hg : getRa s r = some ra
       (ra.md = true → ra'.md = true) :=
   run_opened s ops r ra hg h1
 
-/-- **open_flows_forever** — … so from the completed handshake on, ordinary transfers from the hub over
-    the canonical channel flow, after any further history. -/
+/-- **open_flows_forever** — … so from the completed handshake on, after any further history, the genesis
+    bridge never stands in the way of an ordinary transfer from the hub over the canonical channel again:
+    the transfer goes out unless — and exactly when — the canonical client is frozen at that moment, which
+    only a hard fork of the rollapp brings about and the rollapp's next state update ends
+    (`fork_freezes`, `update_reopens`, `frozen_until_update` in Props/C10Fork). -/
 theorem open_flows_forever {s : St} {c r : Nat} {ra : Ra} (hs : Reachable s) (hc : CanonChan s c r)
     (hg : getRa s r = some ra) (h1 : ra.nOpen ≠ 0) (ops : List Op) :
-    step (run s ops) (.send c) = (run s ops, .ok) := by
+    ∃ ra', getRa (run s ops) r = some ra' ∧ ra'.tph = ra.tph ∧
+      step (run s ops) (.send c) = (run s ops, if ra'.frozen then .err else .ok) := by
   obtain ⟨c', hc⟩ := hc
   have ht : ra.tph ≠ 0 := fun h => h1 ((closed_iff hs hg).2 h)
   obtain ⟨ra', hg', ht', _⟩ := opened_stays_open hg ht ops
   have hc' := run_find s ops c _ hc
   have : ra'.tph ≠ 0 := by rw [ht']; exact ht
-  simp [step, stepSend, hc', hg', this]
+  refine ⟨ra', hg', ht', ?_⟩
+  cases hf : ra'.frozen <;> simp [step, stepSend, hc', hg', this, hf]
 
-/-- … and every further packet on the canonical channel is passed on, never handled by the genesis
-    bridge again, after any further history -/
+/-- … and every further packet on the canonical channel is passed on (or, under a frozen client, refused by
+    ibc core), never handled by the genesis bridge again, after any further history -/
 theorem open_never_rehandshakes {s : St} {c r : Nat} {ra : Ra} (hs : Reachable s) (hc : CanonChan s c r)
     (hg : getRa s r = some ra) (h1 : ra.nOpen ≠ 0) (ops : List Op) (ph : Nat) (p : Pkt) :
-    step (run s ops) (.recv c ph p) = (run s ops, lowerRollapp p) := by
+    ∃ ra', getRa (run s ops) r = some ra' ∧
+      step (run s ops) (.recv c ph p) = (run s ops, if ra'.frozen then .err else lowerRollapp p) := by
   obtain ⟨c', hc⟩ := hc
   have ht : ra.tph ≠ 0 := fun h => h1 ((closed_iff hs hg).2 h)
   obtain ⟨ra', hg', ht', _⟩ := opened_stays_open hg ht ops
   have hc' := run_find s ops c _ hc
   have : ra'.tph ≠ 0 := by rw [ht']; exact ht
-  simp [step, stepRecv, hc', hg', this]
+  refine ⟨ra', hg', ?_⟩
+  cases hf : ra'.frozen <;> simp [step, stepRecv, hc', hg', this, hf]
 
 /-- **total_eq_sum** — the handshake credits, in total, exactly the sum of the genesis accounts registered
     at that moment (the voucher supply of the rollapp's denom on the hub), and no later op changes that
